@@ -3,7 +3,7 @@ from props import producer_engine as E
 
 PROP = "C01"
 LEVEL = "exploration"
-RUNS = {"quick": 3000, "thorough": 120000}
+RUNS = {"quick": 10000, "thorough": 400000}
 
 
 def gen_plan(seed, index, tier="quick"):
